@@ -276,6 +276,11 @@ pub struct Runtime<'a> {
     // Variable scopes, each Vec is a scope, inner Vec is variables in that scope.
     env: Vec<Vec<LocalSlot<'a>, &'a Arena>, &'a Arena>,
 
+    // For every scope of `env`: the function whose activation starts with it (its
+    // parameter scope). A variable of function F is looked up in F's most recent
+    // activation only, never in an older one further down the stack.
+    activations: Vec<Option<FunctionId>, &'a Arena>,
+
     // Function scopes mirror lexical block scopes so lookup stays lexical.
     function_scopes: Vec<Vec<FunctionDef<'a>, &'a Arena>, &'a Arena>,
 
@@ -328,6 +333,7 @@ impl<'a> Runtime<'a> {
         let pool = PoolSet::new(arena);
         Self {
             env: Vec::new_in(arena),
+            activations: Vec::new_in(arena),
             function_scopes: Vec::new_in(arena),
             output: Vec::new_in(arena),
             errors: Diagnostics::new(arena),
@@ -684,6 +690,7 @@ impl<'a> Runtime<'a> {
     /// pool-managed strings in its variables.
     fn pop_scope(&mut self) {
         self.function_scopes.pop();
+        self.activations.pop();
         if let Some(scope) = self.env.pop() {
             for slot in &scope {
                 unsafe { slot.value.return_to_pool(&self.pool) };
@@ -927,6 +934,9 @@ impl<'a> Runtime<'a> {
         let param_ids = self.bound_param_ids(func_def.id, func_def.params);
         let has_frame = self.has_frame_arena();
         self.push_scope_with_capacity(func_def.params.params.len(), self.frame);
+        if let Some(activation) = self.activations.last_mut() {
+            *activation = func_def.id;
+        }
         let param_scope =
             self.env.last_mut().expect("Parameter scope should exist immediately after push");
         for ((param, maybe_local), arg) in
@@ -1773,8 +1783,9 @@ impl<'a> Runtime<'a> {
         let has_frame = self.has_frame_arena();
         let pool = &self.pool;
         let frame = self.frame;
+        let floor = self.search_floor(local);
 
-        for scope in self.env.iter_mut().rev() {
+        for scope in self.env[floor..].iter_mut().rev() {
             if let Some(slot) = scope.iter_mut().rev().find(|slot| slot.id == Some(local)) {
                 Self::overwrite_slot(&mut slot.value, val, has_frame, pool, frame);
                 return true;
@@ -1958,6 +1969,7 @@ impl<'a> Runtime<'a> {
 
     fn push_scope_with_capacity(&mut self, var_capacity: usize, arena: &'a Arena) {
         self.env.push(Vec::with_capacity_in(var_capacity, arena));
+        self.activations.push(None);
         self.function_scopes.push(Vec::new_in(arena));
     }
 
@@ -1972,7 +1984,8 @@ impl<'a> Runtime<'a> {
     }
 
     fn lookup_local_mut(&mut self, local: LocalId) -> Option<&mut Value<'a>> {
-        for scope in self.env.iter_mut().rev() {
+        let floor = self.search_floor(local);
+        for scope in self.env[floor..].iter_mut().rev() {
             for slot in scope.iter_mut().rev() {
                 if slot.id == Some(local) {
                     return Some(&mut slot.value);
@@ -2100,8 +2113,22 @@ impl<'a> Runtime<'a> {
         })
     }
 
+    /// Index of the scope below which `local` cannot live: the start of the most recent
+    /// activation of the function that owns it. A hoisted nested function can run in a
+    /// deeper activation of its recursive owner before that activation's `make` has run;
+    /// the variable it names is that activation's, not the older activation's below.
+    fn search_floor(&self, local: LocalId) -> usize {
+        let Some(facts) = self.facts() else { return 0 };
+        let owner = facts.locals[local.0 as usize].owner;
+        if owner == facts.root_function {
+            return 0;
+        }
+        self.activations.iter().rposition(|activation| *activation == Some(owner)).unwrap_or(0)
+    }
+
     fn lookup_local_env(&self, local: LocalId) -> Option<&Value<'a>> {
-        self.env.iter().rev().find_map(|scope| {
+        let floor = self.search_floor(local);
+        self.env[floor..].iter().rev().find_map(|scope| {
             scope
                 .iter()
                 .rev()
